@@ -279,13 +279,18 @@ def make_machine(col, stage, tier, check_c10, check_c15, weights):
                 return
             d = Draw(data)
             addr = d.int(0, 3)
+            if self.ex.sel is not None and d.chance(0.5):
+                # prefer the selected connection (halting depends on the selection)
+                cand = [a for a, mc in self.ex.open.items() if mc['name'] == self.ex.sel]
+                if cand:
+                    addr = cand[0]
             thread = d.choice([1, 1, 1, 2, 3])
             g = self.gens.get(addr)
             if g is None:
                 g = histgen.ConnGen(None, d.choice(['client', 'server']), dict(reuse=0.6, weights=weights))
                 self.gens[addr] = g
             self.t += histgen.next_gap(d)
-            if g.started and d.chance(0.25 if self.ex.sel is not None else 0.06):
+            if g.started and d.chance(0.35 if self.ex.sel is not None else 0.06):
                 # gdb attached late: a message on an object this session never saw being created
                 m = dict(sent=d.chance(0.5), iface=d.choice(['wl_callback', 'wl_surface', 'zz_unknown']), id=900 + d.int(0, 4), name=d.choice(['done', 'commit', 'sync']),
                          args=[['uint', 7]] if d.chance(0.5) else [])
